@@ -198,8 +198,9 @@ class History:
 def gen_history(rng, sim, hid, kind, nops):
     h = History(hid, kind)
     base = IMSI0 + hid * 10
-    nsub = 1 if kind in ("single", "compliant", "split", "split2", "huge", "burst") else 8 if kind == "lenwalk" else 2
-    rgs = [1] if kind in ("single", "split", "split2", "huge", "burst", "lenwalk") else rng.choice([[1], [1, 2]])
+    nsub = 1 if kind in ("single", "compliant", "twin", "split", "split2", "huge", "burst") else 8 if kind == "lenwalk" else 2
+    rgs = [1] if kind in ("single", "split", "split2", "huge", "burst", "lenwalk") else [1, 2] if kind == "twin" else rng.choice([[1], [1, 2]])
+    twin_cost = rng.choice(["1", "2", "2", "7"])
     for s in range(nsub):
         supi = base + s
         h.supis.append(supi)
@@ -209,6 +210,11 @@ def gen_history(rng, sim, hid, kind, nops):
             else:
                 quota = rng.choice([0, 150, 1000, 100000, 100000])
             cost = rng.choice(["1", "1", "2", "7"])
+            if kind == "twin":
+                # two rating groups of one subscriber at the same tariff, one rich and one nearly empty, asked for the
+                # same volume in every request: their credit-control requests share the subscriber's Diameter session
+                # and carry equal request numbers and equal amounts -- each must still be granted from its own account
+                quota, cost = (rng.choice([5000, 100000]) if rg == 1 else rng.choice([0, 30, 120, 150, 250])), twin_cost
             h.accounts.append((supi, rg, quota, cost))
             o0 = sim.do({"op": "account", "supi": "imsi-%d" % supi, "rg": rg, "quota": str(quota), "unitCost": cost})
             h.lrsn0 = o0.get("lrsn", 0)
@@ -414,13 +420,19 @@ def gen_history(rng, sim, hid, kind, nops):
             o = send({"kind": "update", "ref": s["ref"], "req": req})
             record_grants(s, o)
             continue
-        if not live or (r < (0.5 if kind == "names" else 0.12) and kind != "compliant"):
+        if not live or (r < (0.5 if kind == "names" else 0.12) and kind not in ("compliant", "twin")):
             do_create(rng.choice(h.supis), consumer=(rng.choice(["a1", "a", "a-1", "1", "", "-", "a1-", "smf-12", "12"]) if kind == "names" else None))
         elif r < 0.70:
             s = rng.choice(live)
             # kind "compliant": one session at a time, every report within the last grant (the domain of C06_history)
-            compliant = kind == "compliant" or rng.random() < (0.95 if kind == "single" else 0.85)
+            compliant = kind in ("compliant", "twin") or rng.random() < (0.95 if kind == "single" else 0.85)
             us = [usage_for(s, rg, compliant, rng) for rg in rng.sample(rgs, rng.choice([1, len(rgs)]))]
+            if kind == "twin":
+                order = rgs if rng.random() < 0.6 else list(reversed(rgs))
+                us = [usage_for(s, rg, True, rng) for rg in order]
+                same = rng.choice([100, 100, 50, 1000])
+                for u in us:
+                    u["req"] = same
             trig = rng.choice([[], [], [], [0], [1], [0, 0]])
             req = new_req(s["supi"], us, triggers=trig, cid=s["cid"], notify=(s["notify"] if rng.random() < 0.8 else -1))
             o = send({"kind": "update", "ref": s["ref"], "req": req})
@@ -726,7 +738,7 @@ def monitor(h):
 SPEC = {
     # property: (Props file, correspondence codes that matter, plan quick, plan thorough)
     "C01": ("Charging/PropsC01.v", {2, 3, 4}, [("single", 14)] * 10 + [("multi", 16)] * 8 + [("createusage", 5)] * 2),
-    "C06": ("Charging/PropsC06.v", {2, 3, 4}, [("single", 16)] * 8 + [("compliant", 16)] * 7 + [("multi", 14)] * 5),
+    "C06": ("Charging/PropsC06.v", {2, 3, 4}, [("single", 16)] * 8 + [("compliant", 16)] * 7 + [("multi", 14)] * 5 + [("twin", 10)] * 4),
     "C02": ("Charging/PropsC02.v", {5, 6, 8}, [("multi", 18)] * 10 + [("pdu", 12)] * 2 + [("single", 10)] * 4 + [("split", 6)] * 2),
     "C03": ("Charging/PropsC03.v", {5, 8}, [("multi", 14)] * 8 + [("split", 10)] * 3 + [("split2", 11)] + [("huge", 2)] + [("lenwalk", 1)]),
     "C10": ("Charging/PropsC10.v", {1, 6, 9}, [("wrap32", 16)] + [("multi", 18)] * 10 + [("names", 14)] * 4 + [("burst", 4)] * 4 + [("wrap63", 8)]),
